@@ -29,7 +29,7 @@ RULE_TEXT = ('runs = seeded random suites of 2..6 cases (disturbers: env in both
              'with --suite + every case alone beside exactly.suite (+ the sub-suite case). Non-trivial = at least one '
              'disturber ran before an observer in one of the runs; distinct = (case kinds and endings in order, suite '
              'phases, sub-suite phases, preprocessor).')
-REACH_PROBES = ['launched_from_another_directory', 'case_files_are_symbolic_links', 'act_contents_without_header', 'case_with_own_conf_status', 'case_with_invalid_value_for_suite_instruction', 'stdin_disturbance',
+REACH_PROBES = ['suite_given_while_another_default_suite_stands_beside_the_case', 'launched_from_another_directory', 'case_files_are_symbolic_links', 'act_contents_without_header', 'case_with_own_conf_status', 'case_with_invalid_value_for_suite_instruction', 'stdin_disturbance',
                 'preprocessor_fails_for_one_case', 'suite_conf_status', 'suite_conf_actor', 'disturber_before_observer', 'disturber_ended_by_exception', 'disturber_ended_by_timeout',
                 'disturber_ended_by_hard_error', 'disturber_failing_cleanup', 'observer_foreign_symbol_reference',
                 'observer_same_symbol_names', 'suite_phase_setup', 'suite_phase_before_assert', 'suite_phase_assert',
@@ -141,6 +141,10 @@ def gen_case(g, cid, force_kind=None):
     # a symbol that a suite-supplied [assert] instruction needs as an integer: one case in a while defines a non-integer
     bad_int = g.random() < 0.12
     case['setup'].append({'k': 'real', 'text': 'def string CASEINT = %s' % ('notAnInteger' if bad_int else '0'), 'fx': [['noop']]})
+    # ... and one that a suite-supplied `stdout` assertion (a composite of parts, each with a validator) needs
+    bad_int2 = (not bad_int) and g.random() < 0.12
+    case['setup'].append({'k': 'real', 'text': 'def string CASEINT2 = %s' % ('notAnInteger' if bad_int2 else '0'), 'fx': [['noop']]})
+    bad_int = bad_int or bad_int2
     # a per-case value for a `timeout` instruction that the suite supplies (parsed once, shared by all cases)
     tv = g.choice([3, 7, 50, 600])
     case['setup'].append({'k': 'real', 'text': 'def string CASETIMEOUT = %d' % tv, 'fx': [['noop']]})
@@ -186,7 +190,8 @@ def make_plan(i, master, tier):
             # case configuration supplied by the suite's [conf]: applies to directly listed cases, in every run mode
             'suite_conf': {'status_fail': g.random() < 0.2, 'actor': g.random() < 0.2},
             'launch_elsewhere': kernel.stream(seed, 'launch').random() < 0.3,
-            'symlinked_cases': kernel.stream(seed, 'symlinks').random() < 0.25}
+            'symlinked_cases': kernel.stream(seed, 'symlinks').random() < 0.25,
+            'decoy_default_suite': kernel.stream(seed, 'decoy').random() < 0.3}
 
 
 # ----------------------------------------------------------------------------- model
@@ -207,6 +212,10 @@ def effective_case(plan, c, suite_key):
         if ph != 'setup':
             items.append({'k': 'probe', 'id': ident + '-lines', 'form': '%'})
             procs[ident + '-lines'] = {'exit': 0}
+        if ph == 'setup':
+            # the suite also creates files: in the sandbox of the case that is being executed
+            items.append({'k': 'real', 'text': 'file suite-file.txt = "from the suite"', 'fx': [['noop']]})
+            items.append({'k': 'real', 'text': 'file -rel-tmp suite-tmp-file.txt = "from the suite"', 'fx': [['noop']]})
         if ph == 'before-assert' and c.get('timeout_value') is not None:
             items.append({'k': 'real', 'text': 'timeout = @[CASETIMEOUT]@', 'fx': [['timeout', c['timeout_value']]]})
         if ph == 'cleanup':
@@ -257,11 +266,13 @@ def suite_text(plan, key, order=None):
         lines += ['[%s]' % ph, '%% suite-%s-%s %s' % (key, ph, SUITE_ARGS_SETUP if ph == 'setup' else SUITE_ARGS)]
         if ph == 'assert':
             # validated before execution, against the symbols of the case it is part of
-            lines += ['exit-code >= @[CASEINT]@']
+            lines += ['exit-code >= @[CASEINT]@', 'stdout num-lines >= @[CASEINT2]@']
         if ph != 'setup':
             # a value computed by a transformer from a per-case symbol reaches the child as its stdin
             lines += ['run %% suite-%s-%s-lines' % (key, ph),
                       '  -stdin -contents-of -rel-home lines.txt -transformed-by filter -line-nums @[CASELINE]@']
+        if ph == 'setup':
+            lines += ['file suite-file.txt = "from the suite"', 'file -rel-tmp suite-tmp-file.txt = "from the suite"']
         if ph == 'before-assert':
             lines += ['timeout = @[CASETIMEOUT]@']
     return '\n'.join(lines) + '\n'
@@ -444,11 +455,18 @@ def execute(plan, scratch):
         digests.append(sim.digest())
         return sim.clock.advanced
 
+    # (c) alone, with the suite given: the suite that is GIVEN applies - also when another one, named exactly.suite, stands
+    # beside the case
+    decoy = bool(plan.get('decoy_default_suite'))
+    if decoy:
+        w.write('home/exactly.suite', '[setup]\n% decoy-suite-setup\n[cleanup]\n% decoy-suite-cleanup\n')
     for c in cases:
         if elsewhere:
             sim_seconds += single('explicit', ['--suite', '../root.suite', '../' + c['id'] + '.case'], c['id'], cwd=start)
         else:
             sim_seconds += single('explicit', ['--suite', 'root.suite', c['id'] + '.case'], c['id'])
+    if decoy:
+        os.unlink(os.path.join(w.home, 'exactly.suite'))
     # (d) beside a copy of the suite file named exactly.suite
     w.write('home/exactly.suite', suite_text(plan, 'root'))
     for c in cases:
@@ -470,6 +488,8 @@ def _probes(plan, hist):
     pr = {'mode_suite_run': 1, 'mode_permuted': 1, 'mode_explicit_suite_option': 1, 'mode_beside_exactly_suite': 1}
     if plan.get('launch_elsewhere'):
         pr['launched_from_another_directory'] = 1
+    if plan.get('decoy_default_suite'):
+        pr['suite_given_while_another_default_suite_stands_beside_the_case'] = 1
     if plan.get('symlinked_cases'):
         pr['case_files_are_symbolic_links'] = 1
     if any((c['case'].get('layout') or {}).get('act_first_without_header') for c in plan['cases']):
